@@ -34,7 +34,7 @@ def parse_range(t):
 
 def parse_struct(text):
     """returns dict(n, default_present, debug, fields=[dict(name, ranges, arr, kind, w, readable, writable)])"""
-    head = re.search(r'#\[bitfield\(\s*u(\d+)\s*(.*?)\)\]\s*(?:#\[derive\([^)]*\)\]\s*)?(?:///[^\n]*\n)?(?:pub(?:\(crate\))? )?struct (\w+)', text)
+    head = re.search(r'#\[bitfield\(\s*u(\d+)\s*(.*?)\)\]\s*(?:#\[(?:derive|allow|cfg)\([^\]]*\)\]\s*)*(?:///[^\n]*\n)?(?:pub(?:\(crate\))? )?struct (\w+)', text)
     if not head:
         raise ValueError("no bitfield header")
     n = int(head.group(1))
